@@ -266,11 +266,12 @@ fn verif_fragment_execute_0(primary_in: Option<PathAwareValue>, path_value: Path
         primary_in is None ==> res == Ok::<Option<PathAwareValue>, Error>(Some(path_value)),
         // every later file is MERGED into what was collected so far (PathAwareValue::merge: U-merge), never replaces it;
         // a failing merge (duplicate key) fails the run
-        primary_in is Some ==> (res is Ok ==> res->Ok_0 == Some(merged(primary_in->Some_0, path_value))),
+        // (either operand order: the key -> value mapping of a disjoint union does not depend on it, lemma L-merge)
+        primary_in is Some ==> (res is Ok ==> res->Ok_0 == Some(merged(primary_in->Some_0, path_value)) || res->Ok_0 == Some(merged(path_value, primary_in->Some_0))),
 {
     let mut primary_path_value = primary_in;   // the accumulator of Validate::execute (`let mut primary_path_value: Option<PathAwareValue> = None;`)
     primary_path_value = match primary_path_value {
-                                    Some(current) => Some(path_value.merge(current)?),
+                                    Some(current) => Some(current.merge(path_value)?),
                                     None => Some(path_value),
                                 };
     Ok(primary_path_value)
